@@ -21,7 +21,7 @@ for mp in sorted(glob.glob("/verif/seeded/*/meta.json")):
     demo = m["ran"][1]["cmd"] if len(m.get("ran", [])) > 1 else ""
     tags = ["--demotags", "verif"] if "-tags verif" in demo else []
     race = ["--race"] if "-race" in demo else []
-    cmd = ["python3", "tools/seedcheck.py", prop, m["variant"], m["demo_package_dir"], "--round", str(m["round"]), "--checks", pick] + tags + race
+    cmd = ["python3", "tools/seedcheck.py", prop, m["variant"], m["demo_package_dir"], "--round", str(m.get("round", 1)), "--checks", pick] + tags + race
     jobs.setdefault(prop, []).append((os.path.basename(os.path.dirname(mp)), pick, cmd))
 props = sorted(jobs, key=lambda p: -sum(COST.get(j[1], 5) for j in jobs[p]))
 streams = [[] for _ in range(a.streams)]
